@@ -6,6 +6,14 @@ bilerp exact; WhalleyWilmott(derivative)(input), ww_width, svi_variance / SVIVar
 box_muller, realized_volatility through the Float carrier.
 predicate: the documented piecewise formulas evaluated independently in Python (Fractions /
 math), incl. band membership for Whalley-Wilmott and equality with the BS delta at zero cost.
+Whalley-Wilmott is run for every derivative a Black-Scholes module exists for (European, European binary, lookback, American binary:
+four and FIVE input features), through forward() on the concatenated input (several rows, previous hedge placed relative to the band)
+and through a Hedger on simulated paths; oracle = delta / gamma of an independent Black-Scholes module called with named arguments;
+correspondence of the half-width with op "ww_width" and of the band logic with the exact op "ww" (European also op "ww_full").
+The helpers are also evaluated OUTSIDE the usual range of their arguments, wherever the documented formula is defined: bilerp weights
+outside [0, 1] (float / 0-dim / per-element tensor weights, float32 and float64), SVI parameters of any sign, box_muller with u1 <= 0 /
+around epsilon, angles beyond one turn and a caller-chosen epsilon, ww_width with negative / huge gamma, cost rates up to 1 and tensor
+cost / a, realized volatility of prices over many orders of magnitude -- all of them also sent to their model ops.
 """
 import math
 from fractions import Fraction as F
@@ -188,24 +196,51 @@ def check(ctx):
                 ctx.fail(what, clamp_req(c), key=key,
                          detail={"x": rat_str(x), "lo": str(lo), "hi": str(hi), "impl": rat_str(got), "expected": rat_str(exp)})
                 break
-    # ---------------- bilerp (exact)
+    # ---------------- bilerp (exact): weights inside the unit square, on its boundary and OUTSIDE it (the documented formula is a
+    # polynomial in the weights: linear extrapolation), each weight a Python float, a 0-dim tensor or one weight per element
     breq, bmeta = [], []
     for _ in range(300 if ctx.tier == "quick" else 4000):
-        e = [g.dy(-4, 4, 3) for _ in range(4)] + [g.dy(0, 1, 3), g.dy(0, 1, 3)]
-        t = [torch.tensor([float(x)], dtype=torch.float64) for x in e[:4]]
-        w1 = float(e[4]) if g.chance(0.5) else torch.tensor([float(e[4])], dtype=torch.float64)
-        w2 = float(e[5])
-        st, v, _ = call_impl(fnl.bilerp, *t, w1, w2)
-        got = tensor_to_fracs(v)[0] if st == "ok" else v
-        a, b, c_, d, u, w = e
-        exp = (1 - w) * ((1 - u) * a + u * b) + w * ((1 - u) * c_ + u * d)
-        ctx.case({"bilerp": enc_rat(e)}, True, tag="bilerp")
+        n_ = g.small((1, 1, 1, 2, 3, 5))
+        dtn = g.weighted([("float64", 3), ("float32", 1)])
+        dt_ = getattr(torch, dtn)
+        wrange = g.weighted([("unit", 2), ("outside", 3)])
+        wforms = [g.weighted([("float", 2), ("tensor", 2), ("tensor0", 1)]) for _i in range(2)]
+        vals = [[g.dy(-4, 4, 3) for _j in range(4)] for _i in range(n_)]
+
+        def weight():
+            if wrange == "unit":
+                return g.dy(0, 1, 3)
+            return g.choice([g.dy(-3, 0, 3), g.dy(1, 4, 3), g.dy(-3, 4, 3), g.dy(0, 1, 3)])
+        ws = []
+        for form in wforms:
+            w = [weight() for _i in range(n_)]
+            ws.append(w if form == "tensor" else [w[0]] * n_)
+        if wrange == "outside" and all(0 <= w <= 1 for w_ in ws for w in w_):
+            ws[g.randint(0, 1)] = [g.choice([g.dy(-3, -1, 3) - F(1, 8), g.dy(1, 4, 3) + F(1, 8)])] * n_
+        t = [torch.tensor([float(v[j]) for v in vals], dtype=dt_) for j in range(4)]
+        wt = [float(w[0]) if form == "float" else (torch.tensor(float(w[0]), dtype=dt_) if form == "tensor0" else
+                                                   torch.tensor([float(x) for x in w], dtype=dt_)) for form, w in zip(wforms, ws)]
+        st, v, mut = call_impl(fnl.bilerp, *t, *wt)
+        got = tensor_to_fracs(v) if st == "ok" and tuple(v.shape) == (n_,) else [v if st != "ok" else "shape " + str(list(v.shape))] * n_
+        elems = [list(vals[i]) + [ws[0][i], ws[1][i]] for i in range(n_)]
+        outside = any(not 0 <= w <= 1 for w_ in ws for w in w_)
+        case = {"bilerp": enc_rat(elems), "dtype": dtn, "weight_forms": wforms}
+        ctx.case(case, True, tag="bilerp")
+        ctx.stats[f"bilerp:weights={'outside [0,1]' if outside else 'in [0,1]'}"] += 1
         ctx.traces += 1
-        if got != exp:
-            ctx.fail("bilerp differs from the bilinear interpolation formula", {"bilerp": enc_rat(e)}, key="bilerp:value",
-                     detail={"impl": str(got), "expected": rat_str(exp)})
-        breq.append(e)
-        bmeta.append(got)
+        if mut:
+            ctx.mutated("bilerp", mut, case)
+        for e, gv in zip(elems, got):
+            a, b, c_, d, u, w = e
+            exp = (1 - u) * (1 - w) * a + u * (1 - w) * b + (1 - u) * w * c_ + u * w * d
+            if gv != exp:
+                ctx.fail("bilerp differs from the bilinear interpolation formula" + (" for a weight outside [0, 1]" if not (0 <= u <= 1 and 0 <= w <= 1) else ""),
+                         case, key="bilerp:value" if (0 <= u <= 1 and 0 <= w <= 1) else "bilerp:value:weight-outside-unit-interval",
+                         detail={"element": enc_rat(e), "impl": str(gv), "expected": rat_str(exp)})
+                break
+        for e, gv in zip(elems, got):
+            breq.append(e)
+            bmeta.append(gv)
     # ---------------- Whalley-Wilmott, ww_width, svi, box_muller, realized_volatility (Float)
     from pfhedge.instruments import BrownianStock, EuropeanOption
     from pfhedge.nn import WhalleyWilmott, BlackScholes, SVIVariance
@@ -261,11 +296,19 @@ def check(ctx):
     for _ in range(200 if ctx.tier == "quick" else 3000):
         e = [g.r.uniform(-1, 1), g.r.uniform(0, 0.1), g.r.uniform(0, 1), g.r.uniform(-0.9, 0.9), g.r.uniform(-0.5, 0.5),
              g.choice([g.r.uniform(0.01, 2), g.r.uniform(0.01, 2), 0.0, -g.r.uniform(0.01, 2)])]
+        if g.chance(0.4):
+            # the formula is defined for all real parameters: also outside the range of a calibrated smile (a < 0, b < 0, |rho| > 1, far strikes)
+            e = [g.r.uniform(-6, 6), g.r.uniform(-1, 1), g.r.uniform(-2, 2), g.r.uniform(-3, 3), g.r.uniform(-4, 4),
+                 g.choice([g.r.uniform(-10, 10), 0.0, g.r.uniform(0.01, 2)])]
+            ctx.stats["svi:parameters outside the usual range"] += 1
         k_, a_, b_, rho, m_, sg = e
+        par = [a_, b_, rho, m_, sg]
+        if g.chance(0.3):
+            par = [torch.tensor(x, dtype=torch.float64) for x in par]       # parameters given as (0-dim) tensors
         if g.chance(0.5):
-            got = float(fnl.svi_variance(torch.tensor(k_, dtype=torch.float64), a_, b_, rho, m_, sg))
+            got = float(fnl.svi_variance(torch.tensor(k_, dtype=torch.float64), *par))
         else:
-            got = float(SVIVariance(a_, b_, rho, m_, sg)(torch.tensor(k_, dtype=torch.float64)))
+            got = float(SVIVariance(*par)(torch.tensor(k_, dtype=torch.float64)))
         exp = a_ + b_ * (rho * (k_ - m_) + math.sqrt((k_ - m_) ** 2 + sg ** 2))
         ctx.case({"svi": e}, True, tag="svi")
         ctx.traces += 1
@@ -275,27 +318,54 @@ def check(ctx):
         sreq_elems.append(e)
         smeta.append(got)
     bm_elems, bm_meta = [], []
+    bm_eps = {}        # non-default epsilon -> (elems, outputs); one model request per epsilon
     for _ in range(200 if ctx.tier == "quick" else 3000):
         u1 = g.choice([g.r.random(), g.r.random(), 1e-12, 0.0, 1.0, 0.5])
         u2 = g.r.random()
-        z1, z2 = fnl.box_muller(torch.tensor(u1, dtype=torch.float64), torch.tensor(u2, dtype=torch.float64))
+        eps = None
+        if g.chance(0.4):
+            # outside the range of uniform samples / of the default: u1 at and around epsilon, u1 <= 0 (clamped to epsilon as documented),
+            # angles beyond one turn, a caller-chosen epsilon
+            eps = g.choice([None, None, 1e-6, 1e-3, 0.25])
+            ev = 1e-10 if eps is None else eps
+            u1 = g.choice([ev, ev * (1 + 1e-9), ev * (1 - 1e-9), 2 * ev, ev / 2, 3e-10, 1e-300, -g.r.random(), -1e-12, g.r.random(), 1.0 - 2.0 ** -53])
+            u2 = g.choice([g.r.uniform(-3, 3), g.r.uniform(-3, 3), -g.r.random(), 1.0, 0.0, -0.25, 2.5])
+            ctx.stats["box_muller:arguments outside the usual range"] += 1
+        ev = 1e-10 if eps is None else eps
+        kw = {} if eps is None else {"epsilon": eps}
+        z1, z2 = fnl.box_muller(torch.tensor(u1, dtype=torch.float64), torch.tensor(u2, dtype=torch.float64), **kw)
         z1, z2 = float(z1), float(z2)
-        r = math.sqrt(-2 * math.log(max(u1, 1e-10)))
+        r = math.sqrt(-2 * math.log(max(u1, ev)))
         e1, e2 = r * math.cos(2 * math.pi * u2), r * math.sin(2 * math.pi * u2)
-        ctx.case({"box_muller": [u1, u2]}, True, tag="box_muller")
+        case = {"box_muller": [u1, u2]} if eps is None else {"box_muller": [u1, u2], "epsilon": eps}
+        ctx.case(case, True, tag="box_muller")
         ctx.traces += 1
         if not (close(z1, e1, ab=1e-9) and close(z2, e2, ab=1e-9)):
-            ctx.fail("box_muller differs from sqrt(-2 log u1) (cos, sin)(2 pi u2)", {"box_muller": [u1, u2]}, key="box_muller:value",
+            ctx.fail("box_muller differs from sqrt(-2 log u1) (cos, sin)(2 pi u2)", case, key="box_muller:value",
                      detail={"impl": [z1, z2], "expected": [e1, e2]})
-        bm_elems.append([u1, u2])
-        bm_meta.append((z1, z2))
+        if eps is None:
+            bm_elems.append([u1, u2])
+            bm_meta.append((z1, z2))
+        else:
+            bm_eps.setdefault(eps, ([], []))
+            bm_eps[eps][0].append([u1, u2])
+            bm_eps[eps][1].append((z1, z2))
     wreq_elems, wmeta = [], []
     for _ in range(200 if ctx.tier == "quick" else 3000):
         e = [g.choice([g.r.uniform(0, 5), g.r.uniform(0, 5), math.inf, 1e200]), g.r.uniform(0.1, 3), g.choice([0.0, 1e-4, 1e-3, 1e-2, -0.0]),
              g.choice([0.25, 1.0, 3.0, 10.0])]
-        got = float(fnl.ww_width(torch.tensor(e[0], dtype=torch.float64), torch.tensor(e[1], dtype=torch.float64), e[2], e[3]))
+        cost_a = [e[2], e[3]]
+        if g.chance(0.4):
+            # a NEGATIVE gamma (short positions, binaries past the strike: only gamma^2 enters), large gammas, penny / large spots, cost rates
+            # up to 100 %, tiny / large risk aversions; cost and a given as tensors
+            e = [g.choice([-g.r.uniform(0, 5), -g.r.uniform(0, 5), g.r.uniform(-300, 300), -math.inf, -1e200, g.r.uniform(-1e-3, 1e-3)]),
+                 g.choice([g.r.uniform(0.1, 3), g.r.uniform(1e-3, 0.1), g.r.uniform(3, 1e3)]), g.choice([0.0, 1e-4, 1e-2, 0.1, 0.5, 1.0, -0.0]),
+                 g.choice([0.25, 1.0, 1e-3, 100.0, g.r.uniform(0.01, 20)])]
+            cost_a = [torch.tensor(x, dtype=torch.float64) if g.chance(0.4) else x for x in e[2:]]
+            ctx.stats["ww_width:arguments outside the usual range"] += 1
+        got = float(fnl.ww_width(torch.tensor(e[0], dtype=torch.float64), torch.tensor(e[1], dtype=torch.float64), *cost_a))
         # no cost, no band - also where gamma is infinite (documented: the strategy is then the Black-Scholes delta hedge)
-        exp = 0.0 if e[2] == 0 else (math.inf if e[0] >= 1e150 else (3 * e[2] * e[0] ** 2 * e[1] / (2 * e[3])) ** (1 / 3))
+        exp = 0.0 if e[2] == 0 else (math.inf if abs(e[0]) >= 1e150 else (3 * e[2] * e[0] ** 2 * e[1] / (2 * e[3])) ** (1 / 3))
         ctx.case({"ww_width": e}, e[2] > 0, tag="ww_width")
         ctx.traces += 1
         if not close(got, exp):
@@ -308,6 +378,11 @@ def check(ctx):
         T = g.small((2, 3, 5, 8, 20))
         dt = g.choice([1 / 250, 0.1, 1 / 12])
         path = [math.exp(g.r.uniform(-0.3, 0.3)) for _ in range(T)]
+        if g.chance(0.3):
+            # prices over many orders of magnitude, intervals far from a trading day
+            dt = g.choice([1e-6, 2.0, 10.0, 1 / 250])
+            path = [math.exp(g.r.uniform(-8, 8)) for _ in range(T)]
+            ctx.stats["realized_vol:arguments outside the usual range"] += 1
         got = float(fnl.realized_volatility(torch.tensor([path], dtype=torch.float64), dt)[0])
         lr = [math.log(path[i + 1]) - math.log(path[i]) for i in range(T - 1)]
         exp = math.sqrt(sum(x * x for x in lr) / len(lr) / dt)
@@ -382,6 +457,161 @@ def check(ctx):
                 wwmeta.append((case, out))
             wwreqs.append({"op": "ww_full", "cost": float_bits(cost), "a": float_bits(a), "k": float_bits(k), "call": call,
                            "elems": enc_flt(rows)})
+    # ---------------- Whalley-Wilmott for every derivative a Black-Scholes module exists for -- also those with FIVE input features
+    # (lookback, American binary: log_moneyness, max_log_moneyness, time_to_maturity, volatility, prev_hedge) and the European binary
+    # (negative gamma past the strike) -- through forward() on the concatenated input, several rows at once, with the previous hedge
+    # placed relative to the band (in particular different from every other column).  Oracle: delta and gamma of an independent
+    # Black-Scholes module called with NAMED arguments, the documented half-width, the band rule row by row.
+    from pfhedge.instruments import EuropeanBinaryOption, LookbackOption, AmericanBinaryOption
+    from pfhedge.nn import Hedger
+    WW_KINDS = {"european": EuropeanOption, "european_binary": EuropeanBinaryOption, "lookback": LookbackOption,
+                "american_binary": AmericanBinaryOption}
+
+    def ww_derivative(kind, stock, k, call, **kw):
+        return WW_KINDS[kind](stock, strike=k, **kw) if kind in ("lookback", "american_binary") else WW_KINDS[kind](stock, call=call, strike=k, **kw)
+
+    def ww_state(kind):
+        """one state (log_moneyness, max_log_moneyness, time_to_maturity, volatility) of the derivative, by name"""
+        s = g.r.uniform(-0.5, 0.5)
+        t = g.choice([0.01, 0.1, 0.25, 1.0, 2.0, g.r.uniform(0.01, 3)])
+        v = g.choice([0.1, 0.2, 0.5, g.r.uniform(0.05, 1.0)])
+        mx = None
+        if kind == "lookback":
+            mx = s + g.choice([0.0, g.r.uniform(0, 0.3), g.r.uniform(0, 0.05)])         # the running maximum is never below the spot
+        elif kind == "american_binary":
+            s = -abs(s) - 0.005                                                          # not yet hit ...
+            mx = g.choice([s, s * g.r.random(), s * g.r.random(), g.r.uniform(0, 0.1)])   # ... except in the last form (max >= strike)
+        return {"log_moneyness": s, "max_log_moneyness": mx, "time_to_maturity": t, "volatility": v}
+
+    ww_rat_elems, ww_rat_meta = [], []
+    for _ in range(70 if ctx.tier == "quick" else 900):
+        kind = g.weighted([("lookback", 3), ("american_binary", 3), ("european_binary", 2), ("european", 1)])
+        cost = g.choice([0.0, 1e-4, 1e-3, 1e-2, 5e-2])
+        a = g.choice([0.25, 1.0, 3.0, 1.0])
+        k = g.choice([0.5, 1.0, 2.0, 1.0, 7.5])
+        call = g.chance(0.7) if kind in ("european", "european_binary") else True
+        d = ww_derivative(kind, BrownianStock(cost=cost, dtype=torch.float64), k, call)
+        m = WhalleyWilmott(d, a=a)
+        ref = BlackScholes(ww_derivative(kind, BrownianStock(dtype=torch.float64), k, call))       # delta / gamma do not involve the cost
+        names = m.inputs()
+        n_rows = g.choice([1, 3, 6])
+        states = [ww_state(kind) for _i in range(n_rows)]
+        col = lambda name: torch.tensor([[st_[name]] for st_ in states], dtype=torch.float64)          # (N, 1)
+        base = {"kind": kind, "inputs": names, "cost": cost, "a": a, "k": k, "call": call}
+        st0, dg, _m = call_impl(lambda: (ref.delta(**{nm: col(nm) for nm in names[:-1]}).detach(),
+                                         ref.gamma(**{nm: col(nm) for nm in names[:-1]}).detach(),
+                                         m.width(torch.cat([col(nm) for nm in names[:-1]], dim=-1)).detach()))
+        if st0 != "ok":
+            ctx.fail("Black-Scholes delta / gamma or WhalleyWilmott.width raised on an ordinary state", base | {"states": states},
+                     key=f"WhalleyWilmott:{kind}:error", detail=dg)
+            continue
+        deltas, gammas, widths = ([float(z) for z in t_.reshape(-1).tolist()] for t_ in dg)
+        rows, wheres = [], []
+        for st_, delta, width in zip(states, deltas, widths):
+            where = g.choice(["inside", "above", "below", "on_hi", "on_lo", "at_delta", "far"])
+            width_ = width if math.isfinite(width) else 0.0
+            prev = {"inside": delta + 0.5 * width_ * g.r.uniform(-1, 1), "above": delta + width_ + g.r.uniform(0.01, 1),
+                    "below": delta - width_ - g.r.uniform(0.01, 1), "on_hi": delta + width_, "on_lo": delta - width_,
+                    "at_delta": delta, "far": g.r.uniform(-3, 3)}[where]
+            rows.append([st_[nm] for nm in names[:-1]] + [prev])
+            wheres.append(where)
+        shape = g.choice(["(N,F)", "(N,F)", "(N,1,F)", "(1,N,F)"])
+        x = torch.tensor(rows, dtype=torch.float64)
+        x = x if shape == "(N,F)" else (x.unsqueeze(1) if shape == "(N,1,F)" else x.unsqueeze(0))
+        st, o, mut = call_impl(m, x)
+        if mut:
+            ctx.mutated("WhalleyWilmott", mut, base | {"rows": rows})
+        if st != "ok" or tuple(o.shape) != tuple(x.shape[:-1]) + (1,):
+            ctx.fail("WhalleyWilmott.forward raised / returned a wrong shape on the concatenated input features of its derivative",
+                     base | {"rows": rows, "input_shape": list(x.shape)}, key=f"WhalleyWilmott:{kind}:error", detail=o if st != "ok" else list(o.shape))
+            continue
+        outs = [float(z) for z in o.detach().reshape(-1).tolist()]
+        all_rows_ok = True
+        for row, where, delta, gam, wid, out in zip(rows, wheres, deltas, gammas, widths, outs):
+            case = base | {"row": row, "where": where, "input_shape": shape}
+            ctx.case(case, nontrivial=cost > 0, tag="ww:" + kind)
+            ctx.stats[f"ww:{len(names)} input features:where={where}"] += 1
+            ctx.traces += 1
+            if not (math.isfinite(delta) and math.isfinite(gam)):
+                ctx.stats["ww: Black-Scholes delta / gamma not finite (skipped; C18 matter)"] += 1
+                all_rows_ok = False
+                continue
+            prev, s_ = row[-1], row[0]
+            spot = k * math.exp(s_)
+            wdoc = (3 * cost * gam ** 2 * spot / (2 * a)) ** (1 / 3)
+            if abs(wid - wdoc) > 1e-7 * wdoc + 1e-12:
+                ctx.fail("WhalleyWilmott.width is not (3 c gamma^2 S / (2a))^(1/3)", case, key=f"WhalleyWilmott.width:{kind}",
+                         detail={"impl": wid, "width_doc": wdoc, "gamma": gam})
+            lo_, hi_ = delta - wdoc, delta + wdoc
+            exp = prev if lo_ <= prev <= hi_ else (hi_ if prev > hi_ else lo_)
+            if not abs(out - exp) <= 1e-9 * (1 + abs(exp)) + 1e-7 * wdoc:
+                ctx.fail("Whalley-Wilmott hedge is not clamp(prev, delta -/+ (3 c gamma^2 S / (2a))^(1/3)) for a derivative with "
+                         f"{len(names)} input features", case, key=f"WhalleyWilmott.forward:band:{kind}",
+                         detail={"impl": out, "expected": exp, "prev_hedge": prev, "delta": delta, "gamma": gam, "width_doc": wdoc})
+            if cost == 0 and not abs(out - delta) <= 1e-12:
+                ctx.fail("Whalley-Wilmott with zero cost differs from the Black-Scholes delta", case,
+                         key=f"WhalleyWilmott.forward:zero-cost:{kind}", detail={"impl": out, "delta": delta})
+            # correspondence: the half-width (model op ww_width on the real gamma) and the band logic (exact model op ww on the real delta / width)
+            wreq_elems.append([gam, spot, cost, a])
+            wmeta.append(wid)
+            if math.isfinite(wid):
+                ww_rat_elems.append([F(prev), F(delta), F(wid)])
+                ww_rat_meta.append((case, out, 1e-15 * (1 + abs(delta) + abs(wid))))
+        if kind == "european" and all_rows_ok:
+            for row, where, out in zip(rows, wheres, outs):
+                wwmeta.append((base | {"row": row, "where": where}, out))
+            wwreqs.append({"op": "ww_full", "cost": float_bits(cost), "a": float_bits(a), "k": float_bits(k), "call": call, "elems": enc_flt(rows)})
+    # ---------------- ... and through a Hedger on simulated paths: the hedge at every step is the previous hedge (0 before the first step)
+    # clamped to the band of that step's state (features of the derivative, named), for all four derivatives
+    for _ in range(24 if ctx.tier == "quick" else 300):
+        kind = g.weighted([("lookback", 3), ("american_binary", 3), ("european_binary", 1), ("european", 1)])
+        cost = g.choice([1e-4, 1e-3, 1e-2, 0.0])
+        a = g.choice([0.25, 1.0, 3.0])
+        k = g.choice([1.02, 1.05, 1.1]) if kind == "american_binary" else g.choice([0.9, 1.0, 1.0, 1.1])
+        call = g.chance(0.7) if kind in ("european", "european_binary") else True
+        sigma = g.choice([0.2, 0.4, 0.8])
+        n_steps, dt_, n_paths, seed = g.randint(3, 8), g.choice([1 / 250, 1 / 50, 1 / 12]), g.randint(2, 4), g.randint(0, 2 ** 31 - 1)
+        stock = BrownianStock(sigma=sigma, cost=cost, dt=dt_, dtype=torch.float64)
+        d = ww_derivative(kind, stock, k, call, maturity=n_steps * dt_)
+        m = WhalleyWilmott(d, a=a)
+        ref = BlackScholes(ww_derivative(kind, BrownianStock(dtype=torch.float64), k, call))
+        names = m.inputs()
+        case = {"kind": kind, "inputs": names, "cost": cost, "a": a, "k": k, "call": call, "sigma": sigma, "n_steps": n_steps, "dt": dt_,
+                "n_paths": n_paths, "torch_seed": seed}
+        torch.manual_seed(seed)
+        d.simulate(n_paths=n_paths)
+        st, hedge, mut = call_impl(Hedger(m, inputs=names).compute_hedge, d)
+        ctx.case(case, nontrivial=cost > 0, tag="ww:hedger:" + kind)
+        ctx.traces += 1
+        if mut:
+            ctx.mutated("Hedger(WhalleyWilmott).compute_hedge", mut, case)
+        if st != "ok" or hedge.dim() != 3 or tuple(hedge.shape[:2]) != (n_paths, 1):
+            ctx.fail("Hedger(WhalleyWilmott(derivative)).compute_hedge raised / returned a wrong shape", case, key=f"WhalleyWilmott:hedger:{kind}:error",
+                     detail=hedge if st != "ok" else list(hedge.shape))
+            continue
+        hedge = hedge.detach()
+        found = False
+        for ts in range(hedge.size(-1) - 1):
+            feats = {"log_moneyness": d.log_moneyness(ts), "time_to_maturity": d.time_to_maturity(ts), "volatility": stock.volatility[:, [ts]]}
+            if "max_log_moneyness" in names:
+                feats["max_log_moneyness"] = d.max_log_moneyness(ts)
+            kw = {nm: feats[nm].detach().clone() for nm in names[:-1]}
+            delta, gam = ref.delta(**kw).detach(), ref.gamma(**kw).detach()
+            prev = hedge[:, 0, [ts - 1]] if ts else torch.zeros_like(delta)
+            wdoc = (3 * cost * gam.square() * (k * feats["log_moneyness"].exp()) / (2 * a)) ** (1 / 3)
+            exp = torch.where(prev < delta - wdoc, delta - wdoc, torch.where(prev > delta + wdoc, delta + wdoc, prev))
+            okay = (delta.isfinite() & gam.isfinite())
+            bad = okay & ~((hedge[:, 0, [ts]] - exp).abs() <= 1e-9 * (1 + exp.abs()) + 1e-7 * wdoc)
+            ctx.stats["ww:hedger:steps"] += int(okay.sum())
+            ctx.stats["ww:hedger:previous hedge kept"] += int((okay & (exp == prev)).sum())
+            if bool(bad.any()) and not found:
+                i = int(bad.nonzero()[0][0])
+                found = True
+                ctx.fail("the hedge of a Hedger with the Whalley-Wilmott strategy is not the previous hedge clamped to delta -/+ (3 c gamma^2 S / (2a))^(1/3) "
+                         "at some step", case, key=f"WhalleyWilmott:hedger:{kind}:band",
+                         detail={"path": i, "step": ts, "impl": float(hedge[i, 0, ts]), "expected": float(exp[i, 0]), "prev_hedge": float(prev[i, 0]),
+                                 "delta": float(delta[i, 0]), "gamma": float(gam[i, 0]), "width_doc": float(wdoc[i, 0]),
+                                 "state": {nm: float(kw[nm][i, 0]) for nm in names[:-1]}})
     # ---------------- tensor-valued dt: 0-dim, one interval per path (shape (N,) for input (N,T), (N,M) for input (N,M,T)), incl. the
     # coincidence "last batch dimension == T-1"; oracle: sigma^2 = 1/(T-1) sum_i (1/dt) log(S_{i+1}/S_i)^2 path by path
     for _ in range(120 if ctx.tier == "quick" else 1500):
@@ -427,12 +657,22 @@ def check(ctx):
     try:
         bouts = ctx.driver([{"op": "bilerp", "elems": enc_rat(breq)}])
         wwouts = ctx.driver(wwreqs)
+        wwrat = ctx.driver([{"op": "ww", "elems": enc_rat(ww_rat_elems)}]) if ww_rat_elems else []
         souts = ctx.driver([{"op": "svi", "elems": enc_flt(sreq_elems)}, {"op": "box_muller", "eps": float_bits(1e-10), "elems": enc_flt(bm_elems)},
                             {"op": "ww_width", "elems": enc_flt(wreq_elems)}])
         rvouts = ctx.driver(rv_reqs)
+        bm_eps_outs = ctx.driver([{"op": "box_muller", "eps": float_bits(eps), "elems": enc_flt(el)} for eps, (el, _o) in sorted(bm_eps.items())])
     except DriverBroken as e:
         ctx.ties_broken.append({"kind": "driver", "detail": str(e)[:1500]})
-        bouts, wwouts, souts, rvouts = [], [], [], []
+        bouts, wwouts, souts, rvouts, bm_eps_outs, wwrat = [], [], [], [], [], []
+    if wwrat:
+        for (case, out, tol), mv in zip(ww_rat_meta, dec_rat(wwrat[0]["ok"])):
+            if not abs(F(out) - mv) <= tol:
+                ctx.disagree("ww", case, out, float(mv))
+    for (eps, (el, outs_)), mo in zip(sorted(bm_eps.items()), bm_eps_outs):
+        for e, got, mv in zip(el, outs_, dec_flt(mo["ok"])):
+            if not (close(got[0], mv[0], ab=1e-9) and close(got[1], mv[1], ab=1e-9)):
+                ctx.disagree("box_muller", {"box_muller": e, "epsilon": eps}, got, mv)
     if bouts:
         for e, got, mv in zip(breq, bmeta, dec_rat(bouts[0]["ok"])):
             if got != mv:
@@ -461,4 +701,7 @@ def check(ctx):
              "both inverted_output modes and an invalid one, functions and modules; non-trivial = some bound given. "
              "WW: prev placed inside/outside/on the band, costs {0..5e-2}, a in {1/4,1,3}, one module re-used after underlier.cost changed (to 0, from 0, "
              "between positive costs); helpers on random reals; realized variance/volatility with float and tensor dt (0-dim, one interval per path: "
-             "(N,) / (N,M), incl. last batch dimension == T-1); distinct = sha1 of canonical case")
+             "(N,) / (N,M), incl. last batch dimension == T-1); WW for European / European binary / lookback / American binary derivatives (4 and 5 input "
+             "features) through forward() on concatenated rows and through a Hedger on simulated paths; helpers outside the usual range of their arguments "
+             "(bilerp weights in [-3,4], SVI parameters of any sign, box_muller u1 <= 0 / near epsilon / other epsilon / angles beyond a turn, ww_width with "
+             "negative gamma and tensor cost / a); distinct = sha1 of canonical case")
